@@ -456,6 +456,7 @@ func init() {
 // order - whatever the socket layer does with the frames it rejects.
 func c17FullStack(router bool) func() {
 	return func() {
+		defer logChoice()()
 		const n = 3
 		w := vnet.Reset()
 		var ep *vnet.Endpoint
